@@ -3,7 +3,7 @@
 import re, os
 V = os.path.dirname(os.path.dirname(os.path.abspath(__file__)))
 d = open(V + "/DESIGN.md").read()
-for tag, path in (("SEEDS", "seeded/SUMMARY.md"), ("BENIGN", "benign/SUMMARY.md"), ("BENIGN2", "benign2/SUMMARY.md"), ("BENIGN3", "benign3/SUMMARY.md"), ("BENIGN4", "benign4/SUMMARY.md")):
+for tag, path in (("SEEDS", "seeded/SUMMARY.md"), ("BENIGN", "benign/SUMMARY.md"), ("BENIGN2", "benign2/SUMMARY.md"), ("BENIGN3", "benign3/SUMMARY.md"), ("BENIGN4", "benign4/SUMMARY.md"), ("BENIGN5", "benign5/SUMMARY.md")):
     try:
         body = open(os.path.join(V, path)).read().strip()
     except FileNotFoundError:
